@@ -183,6 +183,17 @@ func (w *world) runTask(t sim.Task) {
 				break
 			}
 			w.doCancel(f)
+		case "print":
+			// a Future is printable (fmt goes through its String method), in any state
+			f := w.futs[op.S]
+			if f == nil || !f.created || f.f == nil {
+				e.Probe("print_skipped")
+				break
+			}
+			if s := fmt.Sprint(f.f); s == "" {
+				e.Violate(w.prop(), "print", "printing future %s gave an empty string", f.id)
+			}
+			e.Probe("future_printed")
 		case "sleep":
 			zsimrt.Sleep("task:sleep", time.Duration(op.D))
 		}
@@ -417,7 +428,12 @@ func Generate(r *sim.Rng, prop, tier string, idx int) *sim.Case {
 					if len(ids) == 0 {
 						task.Ops = append(task.Ops, sim.Op{K: "call", D: int64(delays[r.Intn(len(delays))])})
 					} else {
-						task.Ops = append(task.Ops, sim.Op{K: "cancel", S: ids[r.Intn(len(ids))]})
+						id := ids[r.Intn(len(ids))]
+						task.Ops = append(task.Ops, sim.Op{K: "cancel", S: id})
+						if r.Chance(1, 6) {
+							// e.g. a log line about what was cancelled (or about any other future)
+							task.Ops = append(task.Ops, sim.Op{K: "print", S: sim.Pick(r, id, ids[r.Intn(len(ids))])})
+						}
 					}
 				case 8:
 					// a group of futures sharing one fire instant, some of them cancelled (also twice)
@@ -473,6 +489,9 @@ func Generate(r *sim.Rng, prop, tier string, idx int) *sim.Case {
 				task.Ops = append(task.Ops, sim.Op{K: "call", D: int64(5 * time.Millisecond)})
 				task.Ops = append(task.Ops, sim.Op{K: "call", D: int64(sim.Pick(r, 20*time.Millisecond, 50*time.Millisecond, time.Second))})
 				task.Ops = append(task.Ops, sim.Op{K: "cancel", S: fmt.Sprintf("%s.%d", task.Name, h)})
+				if r.Chance(1, 3) {
+					task.Ops = append(task.Ops, sim.Op{K: "print", S: fmt.Sprintf("%s.%d", task.Name, h+r.Intn(2))})
+				}
 			case 5: // a far future that is the only thing pending, then cancelled
 				h := len(task.Ops)
 				task.Ops = append(task.Ops, sim.Op{K: "call", D: int64(sim.Pick(r, time.Minute, 10*time.Minute, time.Hour))})
